@@ -41,7 +41,9 @@ UTF8 = locale.getpreferredencoding(False).lower().replace('-', '') == 'utf8'
 NUMERIC = [('plain', ['0', '7', '12.5', '1500', '-3', '+4']), ('ws', [' 7 ', '\t12.5', '7  ']),
            ('exp', ['1e3', '1E-2', '2.5e0', '1e309', '-1e999', '1e-400']), ('nonfinite', ['nan', 'NaN', 'inf', '-inf', 'Infinity', '+infinity', 'nan(1)']),
            ('underscore', ['1_000', '1__0', '_1', '1_']), ('hex', ['0x10', '0b1', '0o7', '1.5e']), ('empty', ['', ' ']),
-           ('junk', ['abc', '1,5', '--1', '1.2.3', '$5', '5%', '1 2']), ('dot', ['.5', '5.', '.', '-.5e1'])]
+           ('junk', ['abc', '1,5', '--1', '1.2.3', '$5', '5%', '1 2']), ('dot', ['.5', '5.', '.', '-.5e1']),
+           # amounts as printed on statements, and what a lenient "strip the $ and the commas" would let through
+           ('currency', ['$5', '1,200', '$1,200.50', '$nan', '$inf', 'i,nf', 'n,an', '$1e999', '1,0e400', '-$inf', '$'])]
 UNICODE_NUM = [('unicode', ['١٢٣', '１２', '1 ', '²'])]
 BOOL = [('canon', ['yes', 'no', 'y', 'n', 'true', 'false', '1', '0', 'on', 'off']), ('case', ['YES', 'No', 'TRUE', 'oN', 'Off']),
         ('ws', [' yes ', 'no\t']), ('near', ['ye', 'nope', 'tru', '2', '-1', 'yes no', 'yess', 'o']), ('empty', ['', ' '])]
@@ -571,6 +573,14 @@ def eval_session(case, acc=None):
         for code, msg in run.monitor.violations:
             if code == 'H6':
                 fs.append(F(ID, 'H6', 'H6', msg))
+        if run.outcome == 'abort' and run.exc and run.exc[0] == 'TypeError' and 'found <enum' in run.exc[1] \
+                and 'expected to produce type <enum' in run.exc[1]:
+            # a line that hands back what it received for an enumeration input of its own form was given a member of another
+            # enumeration class: the value did not have the input's declared type
+            r1 = simrun.model_for(case, run)
+            if r1.verdict != 'abort':
+                fs.append(F(ID, 'C11.accept', 'foreign-enumeration-member',
+                            f'a line received an enumeration member that is not of its input\'s declared enumeration: {run.exc[1][:200]}'))
         if acc is not None:
             acc.steps += run.rec.attempts + run.rec.prompts
             acc.count(f'outcome:session-{run.outcome}')
@@ -616,7 +626,15 @@ def evaluate(case, engine, acc=None):
 def make_case(engine, seed):
     rng = core.Rng(core.h64('c11', seed))
     if engine == 'synth_session':
-        if rng.chance(0.5):
+        k_ = rng.random()
+        if k_ < 0.3:
+            # nothing goes wrong on the user's side: every input is given (file or answer)
+            case = gen.gen_case(seed, clean=True)
+            case['prompt'] = True
+            case['refuse_at'] = None
+            case['kind'] = 'refuse'
+            return case
+        if k_ < 0.65:
             case = gen.gen_case(seed, force_faults=rng.pick([['refuse'], ['refuse'], ['refuse', 'notimpl'], ['refuse', 'dup']]))
             case['prompt'] = True
             case['refuse_at'] = rng.pick([1, 1, 2, 3, 5])
